@@ -279,12 +279,24 @@ def parse_guard(raw: Any) -> Optional[GuardIR]:
 
     params = raw.get("params")
     children: List[GuardIR] = []
-    if isinstance(params, dict):
-        # 🔍 Composite guards nest their operands under params.guards.
-        for nested in _as_list(params.get("guards")):
-            parsed = parse_guard(nested)
-            if parsed is not None:
-                children.append(parsed)
+    # 🔍 Operands are read from every spelling the engine itself accepts
+    #    (`GuardDefinition`): `children`, `params.guards`, `params.children`,
+    #    and `params.guard` for a single operand. Reading `params.guards`
+    #    alone turned `{"type": "and", "children": [...]}` into a user guard
+    #    literally named "and", with its operands gone.
+    nested_cfg: Any = raw.get("children") or []
+    if not nested_cfg and isinstance(params, dict):
+        nested_cfg = params.get("guards") or params.get("children") or []
+        if (
+            not nested_cfg
+            and guard_type in _COMPOSITE_OPERATORS
+            and params.get("guard") is not None
+        ):
+            nested_cfg = [params["guard"]]
+    for nested in _as_list(nested_cfg):
+        parsed = parse_guard(nested)
+        if parsed is not None:
+            children.append(parsed)
 
     return GuardIR(
         type=guard_type,
